@@ -87,6 +87,8 @@ def render(n, kinds, edges, forms, layout=None):
                 out.append("        if then is not None:")
                 out.append("            r.append(getattr(importlib.import_module(then[0]), then[1])(0))")
                 out.append("        return r")
+            out.append("    if via is None and hid is not None and len(hid) > 2:")  # the hidden call made as a batch that collects failures
+            out.append("        return ['n%d', getattr(importlib.import_module(hid[0]), hid[1]).call_batch([{'x': 0}], raise_first_exception=False)[0]]" % i)
             out.append("    if via is None and hid is not None:")
             out.append("        return ['n%d', getattr(importlib.import_module(hid[0]), hid[1])(0)]" % i)
             out.append("    if via is None and fnarg is not None:")
@@ -173,6 +175,7 @@ def _child(root, store, n, kinds, edges, layout=None):
                 continue
             for modifier in (None, "partial", "force_local", "ctx", "ignore"):
                 calls.append((u, None, v, "hid", modifier))
+            calls.append((u, None, v, "hid-batch", None))
             calls.append((u, None, v, "arg", None))
             calls.append((u, None, v, "arg", "force_local"))
         for w in succ[u]:
@@ -199,7 +202,9 @@ def _child(root, store, n, kinds, edges, layout=None):
         kw = {}
         if w is not None:
             kw["via"] = "n%d" % w
-        if how in ("hid", "hid+then"):
+        if how == "hid-batch":
+            kw["hid"] = [MODNAME[layout[v]], "n%d" % v, "batch"]
+        elif how in ("hid", "hid+then"):
             kw["hid"] = [MODNAME[layout[v]], "n%d" % v]
             if how == "hid+then":
                 kw["then"] = kw["hid"]
@@ -207,7 +212,7 @@ def _child(root, store, n, kinds, edges, layout=None):
             kw["fnarg"] = node(v)
         try:
             # a distinct argument per way of invoking: every call is computed, none replayed
-            f(20 if how == "hid+then" else 10 + [None, "partial", "force_local", "ctx", "ignore"].index(modifier), **kw)
+            f(20 if how == "hid+then" else 30 if how == "hid-batch" else 10 + [None, "partial", "force_local", "ctx", "ignore"].index(modifier), **kw)
             out = "ok"
         except UndeclaredDependencyError:
             out = "refused"
